@@ -134,3 +134,18 @@ contract(f"{CK}.load_checkpoint", setup=setup_load,
     ensures={"every_state_field_assigned_from_the_given_directory_at_the_chosen_step": post_load,
              "own_checkpoint_dir_kept": lambda c, q: z3.BoolVal(c.self.attrs["checkpoint_dir"].s == "own_dir"),
              "no_save_no_mkdir": lambda c, q: z3.BoolVal(not eff(c, "cm.save") and not eff(c, "mkdir") and not eff(c, "omegaconf.save"))})
+
+# ---------------- ValueIteration._setup_additional_components: the configuration's checkpoint fields reach _setup_checkpointing unpermuted (C12 / C20)
+def setup_addc(I):
+    vimod = I.load_module("mdpax.solvers.value_iteration").globals
+    f, m = z3.Ints("checkpoint_frequency max_checkpoints"); asyn = z3.Bool("enable_async")
+    cfg = Obj("cfg", {"checkpoint_dir": I.PathV("cfg_dir"), "checkpoint_frequency": f, "max_checkpoints": m, "enable_async_checkpointing": asyn}, label="config")
+    s = Obj(vimod["ValueIteration"], {"config": cfg}, label="solver"); got = []
+    contract(f"{CK}._setup_checkpointing", returns=lambda c: None, effects=lambda I_, c: got.append({k: c[k] for k in ("checkpoint_dir", "checkpoint_frequency", "max_checkpoints", "enable_async_checkpointing")}), ensures={}, setup=None)
+    return Ctx(self=s, _args=[], f=f, m=m, asyn=asyn, got=got)
+def post_addc(c, q):
+    if len(c.got) != 1: return z3.BoolVal(False)
+    g = c.got[0]
+    return z3.And(z3.BoolVal(getattr(g["checkpoint_dir"], "s", None) == "cfg_dir"), toz3(g["checkpoint_frequency"]) == c.f, toz3(g["max_checkpoints"]) == c.m, toz3(g["enable_async_checkpointing"]) == c.asyn)
+contract("mdpax.solvers.value_iteration.ValueIteration._setup_additional_components", setup=setup_addc,
+    ensures={"config_fields_passed_to_their_own_parameters": post_addc})
